@@ -15,6 +15,7 @@ def dispatch (prop k : String) (i impl : Json) : E Json :=
   | "validate" => handleValidate prop i impl
   | "trust" => handleTrust i
   | "jwsread" => handleJwsRead i
+  | "coseread" => handleCoseRead i
   | "noop" => do
     -- the container itself does not decode (or must decode): nothing to model
     let e ← fldStr i "expect"
